@@ -25,6 +25,24 @@ CLAIMS = {
          "6 C12", "Coq proof (ghost lifecycle refinement over histories) + closure exploration on the implementation"),
  "C13": ("proof: exclusive / none-clears / cancel-clears / protected / idempotent (static) and sound / complete over histories for every N >= 4; checked from every reachable state of the closure on the real SlotManager (recover, recover twice, recover+complete, cancel and its crash prefixes).",
          "6 C13", "Coq proof (invariants over histories) + closure exploration on the implementation"),
+ "C04": ("proof + fault enumeration: tear safety of every status word (all intermediate patterns), the CRC gate before the Complete mark, read-only validation, header-first slot erase and total allocation are theorems; power loss at every modifying flash operation of rich histories (start, fragments, final mark, recovery remediation, cancel, status marks) incl. torn programs is executed on the real crate and on the byte-level model; oracle: no panic after reboot, every Complete firmware slot validates and holds the image sent for its sequence number, boot status never designates an invalid slot.",
+         "6 C04", "Coq proof of the ingredients + exhaustive crash/torn enumeration per history, differential against the model"),
+ "C06": ("proof + fault enumeration: recovery reads back the durable bookkeeping (recover_roundtrip) and data writes are crash-compatible (compatibility lemmas) are theorems; power loss at every operation boundary of start / every fragment / final mark with both continuations is executed on the real crate and the model; the two windows where the on-flash state is not a sufficient checkpoint are recorded known findings classified from the reference operation log.",
+         "6 C06", "Coq proof (checkpoint lemmas) + exhaustive crash-point enumeration per scenario; two known findings"),
+ "C07": ("proof + twin runs: what recovery reads from flash is the live bookkeeping at every fragment boundary, and every call preserves the pairing between the flash-backed and the abstract session (theorems); every reboot position of generated scripts (single, several, every position; debug and release) is compared with the uninterrupted run on the real crate and with the model.",
+         "6 C07", "Coq proof (refinement / round trip) + twin-run differential"),
+ "C08": ("proof: the flash-backed parity / matrix storages can only program inside [parity slot + 0x400, slot end) for any arguments, data blocks and status bytes land where the layout says for accepted geometries, rows / blocks are disjoint (arithmetic for every index and size), NOR read-back; every erase / program of every generated scenario (ring positions incl. the last slot, losses beyond capacity, every other API call via the ring closure) is monitored and compared with the model.",
+         "6 C08", "Coq proof (address arithmetic, confinement) + operation-log monitor over differential streams"),
+ "C10": ("proof: the three implementation-shaped generators equal the TS004 reference for every M and 1 <= N <= 16383 in both feature modes, index shift of the updater matrix, rows in range / non-empty / exact weight with force-full-r, interop vectors and pinned rows by computation; termination is NOT proved (exercised only); lfdbt stream over exhaustive small and sampled large (M, N) in both builds against the model and an independent reference.",
+         "6 C10", "Coq proof (generator = spec) + differential lfdbt stream; termination clause exercised only"),
+ "C14": ("proof: the prefix-skip loop digests exactly bytes [68, count*size) for every size and count, CRC-32/CKSUM check value, single-bit detection for every length and position, validation gate iff, read-only validation, CRC gate of the final mark; slots prepared with every fragment size and boundary counts, single-bit corruptions inside / outside the covered range, both crates' routines, against the model and an independent CRC.",
+         "6 C14", "Coq proof (loop invariant, CRC algebra) + differential session-crc stream"),
+ "C15": ("proof: acceptance iff representable-and-fits, rejection before any flash operation, the binary search returns the largest fitting l < 2048 which is at least the documented capacity and is what the session enforces, refusal exact and harmless; u32 x u32 boundary geometries, every fragment size at several slot sizes incl. 256 KiB, behaviour at exactly L and L+1 losses, against the model and the property's own predicate.",
+         "6 C15", "Coq proof (search postcondition, arithmetic) + differential geometry / capacity / loss streams"),
+ "C16": ("proof for the data adapter (shared words): its three word programs equal programming the block bytes in place for every write size, block length >= write size, range start and index (get-after-store, frame, contiguity), and the executable model equals the proved one; parity and matrix adapters are covered by correspondence and oracle only; adapters stream over every write size, read sizes dividing it, block lengths, store orders, range starts, bit-array widths.",
+         "6 C16", "Coq proof (data adapter) + differential adapters stream with contract oracle"),
+ "C17": ("proof: index 0 rejected before any effect in both arithmetic modes, allocation total on any ring, oversize parity header not resumed, storage writes confined for any arguments; index stream (0, 1, n, n+1, 2^14, 2^16, 2^32-1, the u32 seed-overflow index, random) at sampled positions in debug / release / force-full-r builds and corrupt-flash stream (structured and random headers, adversarial pairs, garbage tables, slots up to 1 MiB) against the model, predicted vs observed panics; one recorded known finding (seed overflow index).",
+         "6 C17", "Coq proof (totality facts) + differential malformed-input and corrupt-flash streams"),
  "C18": ("proof + fault enumeration: a failed call leaves done/used unchanged except inside the back substitution (theorem, any storage instance); one transient failure at every storage-operation index of generated runs with re-delivery, compared with the fault-free run and with the fault-aware model; the finish window is a recorded known finding.",
          "6 C18", "Coq proof (bookkeeping of failed calls) + exhaustive single-fault injection per run"),
 }
